@@ -140,7 +140,7 @@ func runC17(r *mon.Run) {
 	}
 	c17Components(r, rng)
 	r.FloorAccept("complete", 2)
-	r.FloorFam("binding", 6)
+	r.FloorFam("binding", 5)
 	r.FloorFam("leaf-alter", 20)
 	r.FloorFam("component-cheat", 30)
 	r.FloorFam("component-position-alter", 500)
